@@ -440,7 +440,7 @@ def shard_eval(ctx, tag, items, want, per=40, workers=8):
 def run(ctx):
     ctx.proofs()
     hx = ctx.go_build("c01")
-    n = 110 if ctx.quick() else 2000
+    n = 110 if ctx.quick() else 1500
     if getattr(ctx, "replay_path", None):
         # re-run the program(s) recorded in a replay file instead of generating
         rp = json.load(open(ctx.replay_path))
